@@ -8,21 +8,21 @@ CHECKS = {
  "C01": {
   "level": "proof",
   "technique": "Coq proofs T_enc (Marshal of generated code = reference encoder) and reference round trip (the reference decoder reads the values back) + extracted-model correspondence on exact Marshal bytes + protobuf-go parse",
-  "text": "Proved in Coq for all values/sizes/depths: T_enc - for every schema the generator model accepts and every well-typed value, Marshal of the generated program = ref_encode (the reference encoder written from the encoding document), never a panic; C01_reference_reads_the_values - the reference decoder reads that encoding back as exactly the message's values and presence, for every schema with rt_applies. Below: every scalar writer emits the reference field for every value of all 15 kinds, anyBytes frames every payload length. The theorems are about the Gallina model: that the model is the code is checked on every run by evaluating the extracted model and the implementation built from the working tree on the same generated inputs (checked-in types and freshly generated ones), that the emitted programs are the generator model's by T-pico, and that the reference specification means what protobuf means by comparing it with protobuf-go. The premises of the theorems (msg_ok, rt_ok, rt_applies) are evaluated on every generated value and schema and counted in the evidence.",
+  "text": "Proved in Coq for all values/sizes/depths: T_enc - for every schema the generator model accepts and every well-typed value, Marshal of the generated program = ref_encode (the reference encoder written from the encoding document), never a panic; C01_reference_reads_the_values - the reference decoder reads that encoding back as exactly the message's values and presence, for every schema with rt_applies. Below: every scalar writer emits the reference field for every value of all 15 kinds, anyBytes frames every payload length. The theorems are about the Gallina model: that the model is the code is checked on every run by evaluating the extracted model and the implementation built from the working tree on the same generated inputs (checked-in types and freshly generated ones), that the emitted programs are the generator model's by T-pico, and that the reference specification means what protobuf means by comparing it with protobuf-go. The premises of the theorems (msg_ok, rt_ok, rt_applies_at, tdec_applies_at) are evaluated on every generated value and schema and counted in the evidence.",
   "note": "Trusted: Coq 8.16.1 kernel (vm_compute, no native_compute, no axioms: Print Assumptions recorded in evidence), extraction with ExtrOcamlBasic, the OCaml driver, the Go harness and generators, protobuf-go v1.31.0 as oracle. The tie between model and Go code is differential testing on the projection named in the level text, not proof.",
   "ref": "8 C01"
  },
  "C02": {
   "level": "proof",
-  "technique": "Coq proof T_dec (Unmarshal of generated code = reference decoder on every byte string) + Loop theorem + correspondence on rewritten valid encodings + protobuf-go",
-  "text": "Proved in Coq: Theorem T_dec (Schema/TDec.v): for every schema with tdec_applies (valid distinct numbers, no custom type without modelled semantics; evaluated per schema on every run) and EVERY byte string, Unmarshal of the generated program returns exactly what the reference decoder (tokenize, then merge token by token) computes and returns an error exactly when the reference decoder rejects the input. This covers fields in any order, packed/unpacked/mixed repeated scalars, split repeated fields, non-minimal varints, unknown fields, merged sub-messages, duplicate map keys; below it the Loop theorem (multi-pass Loop = single-pass dispatch for the Decode body of every accepted message), the token bridge (ConsumeVarint/ConsumeFieldValue/nextField = the wire grammar on arbitrary bytes) and the decode transforms for every 64-bit wire value. Not a theorem: that two rewritings of one encoding have the same reference value - the rewritten-encoding stream compares implementation, model, reference decoder and protobuf-go per run. The theorems are about the Gallina model: that the model is the code is checked on every run by evaluating the extracted model and the implementation built from the working tree on the same generated inputs (checked-in types and freshly generated ones), that the emitted programs are the generator model's by T-pico, and that the reference specification means what protobuf means by comparing it with protobuf-go.",
+  "technique": "Coq proof T_dec (Unmarshal of generated code = reference decoder on every byte string) + Loop theorem + record-exchange/split invariance theorems + correspondence on rewritten valid encodings + protobuf-go",
+  "text": "Proved in Coq: Theorem T_dec (Schema/TDec.v): for every message type with tdec_applies_at (valid distinct numbers and no custom type without modelled semantics among the message types reachable from it; evaluated per type on every run) and EVERY byte string, Unmarshal of the generated program returns exactly what the reference decoder (tokenize, then merge token by token) computes and returns an error exactly when the reference decoder rejects the input. This covers fields in any order, packed/unpacked/mixed repeated scalars, split repeated fields, non-minimal varints, unknown fields, merged sub-messages, duplicate map keys; below it the Loop theorem (multi-pass Loop = single-pass dispatch for the Decode body of every accepted message), the token bridge (ConsumeVarint/ConsumeFieldValue/nextField = the wire grammar on arbitrary bytes) and the decode transforms for every 64-bit wire value. Two-input invariance is a theorem for the structural rewritings (Schema/Rewrites.v): C02_exchange_records_unmarshal - exchanging two adjacent records with different field numbers (not members of one oneof) or an unknown record with any record, anywhere in the input, leaves Unmarshal's verdict and value unchanged; C02_split_submessage - a sub-message sent as two records equals one record with the concatenated body. For the remaining rewritings (packed<->unpacked, over-long varints, duplicate scalars) the two inputs' equality of reference value is not a separate theorem: the rewritten-encoding stream compares implementation, model, reference decoder and protobuf-go per run. The theorems are about the Gallina model: that the model is the code is checked on every run by evaluating the extracted model and the implementation built from the working tree on the same generated inputs (checked-in types and freshly generated ones), that the emitted programs are the generator model's by T-pico, and that the reference specification means what protobuf means by comparing it with protobuf-go.",
   "note": "Trusted: Coq 8.16.1 kernel (vm_compute, no native_compute, no axioms: Print Assumptions recorded in evidence), extraction with ExtrOcamlBasic, the OCaml driver, the Go harness and generators, protobuf-go v1.31.0 as oracle. The tie between model and Go code is differential testing on the projection named in the level text, not proof.",
   "ref": "8 C02"
  },
  "C03": {
   "level": "proof",
   "technique": "Coq proof of the property for generated code (T_enc + reference round trip + T_dec) + model/implementation correspondence",
-  "text": "Proved in Coq: C03_marshal_unmarshal (Schema/RoundTrip.v): for every schema of the feature set (rt_applies: distinct valid numbers, modelled custom types, valid message indices, stable zero values) and every well-typed value (Go ranges, at most one member per oneof, distinct map keys, captured bytes as UnrecognizedFields stores them), at any size and depth: Marshal succeeds and Unmarshal of its output into a fresh message returns nil and the message itself - scalars bit for bit, presence, oneof selection, repeated order, nested messages, map contents, unrecognized bytes - up to the by-design normal form (zero time.Time behind a pointer or in a slice is not written; a nil element of a repeated message comes back empty). It composes T_enc (Marshal = reference encoder), the reference round trip ref_decode (ref_encode v) = norm v proved field by field, fuel independence of the reference decoder, and T_dec (Unmarshal = reference decoder). The theorems are about the Gallina model: that the model is the code is checked on every run by evaluating the extracted model and the implementation built from the working tree on the same generated inputs (checked-in types and freshly generated ones), that the emitted programs are the generator model's by T-pico, and that the reference specification means what protobuf means by comparing it with protobuf-go. The premises of the theorems (msg_ok, rt_ok, rt_applies) are evaluated on every generated value and schema and counted in the evidence.",
+  "text": "Proved in Coq: C03_marshal_unmarshal (Schema/RoundTrip.v): for every message type of the feature set (rt_applies_at, over the types reachable from it: distinct valid numbers, modelled custom types, valid message indices, stable zero values) and every well-typed value (Go ranges, at most one member per oneof, distinct map keys, captured bytes as UnrecognizedFields stores them), at any size and depth: Marshal succeeds and Unmarshal of its output into a fresh message returns nil and the message itself - scalars bit for bit, presence, oneof selection, repeated order, nested messages, map contents, unrecognized bytes - up to the by-design normal form (zero time.Time behind a pointer or in a slice is not written; a nil element of a repeated message comes back empty). It composes T_enc (Marshal = reference encoder), the reference round trip ref_decode (ref_encode v) = norm v proved field by field, fuel independence of the reference decoder, and T_dec (Unmarshal = reference decoder). The theorems are about the Gallina model: that the model is the code is checked on every run by evaluating the extracted model and the implementation built from the working tree on the same generated inputs (checked-in types and freshly generated ones), that the emitted programs are the generator model's by T-pico, and that the reference specification means what protobuf means by comparing it with protobuf-go. The premises of the theorems (msg_ok, rt_ok, rt_applies_at, tdec_applies_at) are evaluated on every generated value and schema and counted in the evidence.",
   "note": "Trusted: Coq 8.16.1 kernel (vm_compute, no native_compute, no axioms: Print Assumptions recorded in evidence), extraction with ExtrOcamlBasic, the OCaml driver, the Go harness and generators, protobuf-go v1.31.0 as oracle. The tie between model and Go code is differential testing on the projection named in the level text, not proof.",
   "ref": "8 C03"
  },
@@ -36,7 +36,7 @@ CHECKS = {
  "C05": {
   "level": "proof",
   "technique": "Coq proof: Unmarshal returns nil exactly on the inputs the reference decoder accepts (corollary of T_dec) + correspondence of err==nil with an independent well-formedness predicate",
-  "text": "Proved in Coq: C05_accepts_exactly_wellformed - for every schema with tdec_applies and every byte string, Unmarshal's error is nil iff the reference decoder accepts (every tag valid, every wire type the field's or packed, every length inside its enclosing buffer, nested messages/map entries/Timestamps recursively well formed, input fully consumed); ConsumeFieldValue fails exactly where the wire grammar has no value and never reports more bytes than the input holds (groups of any depth); dec.err is never cleared. Per run: implementation verdict = model verdict = Coq wf_input = an independent predicate built on protobuf-go's protowire, on prefixes, corruptions, group-structure damage and short token strings. The theorems are about the Gallina model: that the model is the code is checked on every run by evaluating the extracted model and the implementation built from the working tree on the same generated inputs (checked-in types and freshly generated ones), that the emitted programs are the generator model's by T-pico, and that the reference specification means what protobuf means by comparing it with protobuf-go.",
+  "text": "Proved in Coq: C05_accepts_exactly_wellformed - for every message type with tdec_applies_at and every byte string, Unmarshal's error is nil iff the reference decoder accepts (every tag valid, every wire type the field's or packed, every length inside its enclosing buffer, nested messages/map entries/Timestamps recursively well formed, input fully consumed); ConsumeFieldValue fails exactly where the wire grammar has no value and never reports more bytes than the input holds (groups of any depth); dec.err is never cleared. Per run: implementation verdict = model verdict = Coq wf_input = an independent predicate built on protobuf-go's protowire, on prefixes, corruptions, group-structure damage and short token strings. The theorems are about the Gallina model: that the model is the code is checked on every run by evaluating the extracted model and the implementation built from the working tree on the same generated inputs (checked-in types and freshly generated ones), that the emitted programs are the generator model's by T-pico, and that the reference specification means what protobuf means by comparing it with protobuf-go.",
   "note": "Trusted: Coq 8.16.1 kernel (vm_compute, no native_compute, no axioms: Print Assumptions recorded in evidence), extraction with ExtrOcamlBasic, the OCaml driver, the Go harness and generators, protobuf-go v1.31.0 as oracle. The tie between model and Go code is differential testing on the projection named in the level text, not proof.",
   "ref": "8 C05"
  },
@@ -50,28 +50,28 @@ CHECKS = {
  "C08": {
   "level": "proof",
   "technique": "Coq proof: presence survives Unmarshal(Marshal(m)) for whole messages (C03's theorem on the presence-carrying value universe) + generator facts (Always selection) + presence-skeleton correspondence with protobuf-go",
-  "text": "Proved in Coq: C08_presence_round_trip = C03_marshal_unmarshal (Schema/RoundTrip.v): for every schema of the feature set (rt_applies: distinct valid numbers, modelled custom types, valid message indices, stable zero values) and every well-typed value (Go ranges, at most one member per oneof, distinct map keys, captured bytes as UnrecognizedFields stores them), at any size and depth: Marshal succeeds and Unmarshal of its output into a fresh message returns nil and the message itself - scalars bit for bit, presence, oneof selection, repeated order, nested messages, map contents, unrecognized bytes - up to the by-design normal form (zero time.Time behind a pointer or in a slice is not written; a nil element of a repeated message comes back empty). It composes T_enc (Marshal = reference encoder), the reference round trip ref_decode (ref_encode v) = norm v proved field by field, fuel independence of the reference decoder, and T_dec (Unmarshal = reference decoder). The value universe distinguishes VOpt None from VOpt (Some zero), VMsg None from VMsg (Some empty), the selected oneof member holding zero from none selected, and keeps empty repeated elements, so the equality IS presence preservation. Also: for every schema the generator model selects Always writers for pointer scalars and scalar/enum oneof members; Always writers emit every value. Not a theorem: that protobuf-go sees the same distinction (Has()) - compared per run on checked-in and fresh types. The theorems are about the Gallina model: that the model is the code is checked on every run by evaluating the extracted model and the implementation built from the working tree on the same generated inputs (checked-in types and freshly generated ones), that the emitted programs are the generator model's by T-pico, and that the reference specification means what protobuf means by comparing it with protobuf-go. The premises of the theorems (msg_ok, rt_ok, rt_applies) are evaluated on every generated value and schema and counted in the evidence.",
+  "text": "Proved in Coq: C08_presence_round_trip = C03_marshal_unmarshal (Schema/RoundTrip.v): for every message type of the feature set (rt_applies_at, over the types reachable from it: distinct valid numbers, modelled custom types, valid message indices, stable zero values) and every well-typed value (Go ranges, at most one member per oneof, distinct map keys, captured bytes as UnrecognizedFields stores them), at any size and depth: Marshal succeeds and Unmarshal of its output into a fresh message returns nil and the message itself - scalars bit for bit, presence, oneof selection, repeated order, nested messages, map contents, unrecognized bytes - up to the by-design normal form (zero time.Time behind a pointer or in a slice is not written; a nil element of a repeated message comes back empty). It composes T_enc (Marshal = reference encoder), the reference round trip ref_decode (ref_encode v) = norm v proved field by field, fuel independence of the reference decoder, and T_dec (Unmarshal = reference decoder). The value universe distinguishes VOpt None from VOpt (Some zero), VMsg None from VMsg (Some empty), the selected oneof member holding zero from none selected, and keeps empty repeated elements, so the equality IS presence preservation. Also: for every schema the generator model selects Always writers for pointer scalars and scalar/enum oneof members; Always writers emit every value. Not a theorem: that protobuf-go sees the same distinction (Has()) - compared per run on checked-in and fresh types. The theorems are about the Gallina model: that the model is the code is checked on every run by evaluating the extracted model and the implementation built from the working tree on the same generated inputs (checked-in types and freshly generated ones), that the emitted programs are the generator model's by T-pico, and that the reference specification means what protobuf means by comparing it with protobuf-go. The premises of the theorems (msg_ok, rt_ok, rt_applies_at, tdec_applies_at) are evaluated on every generated value and schema and counted in the evidence.",
   "note": "Trusted: Coq 8.16.1 kernel (vm_compute, no native_compute, no axioms: Print Assumptions recorded in evidence), extraction with ExtrOcamlBasic, the OCaml driver, the Go harness and generators, protobuf-go v1.31.0 as oracle. The tie between model and Go code is differential testing on the projection named in the level text, not proof.",
   "ref": "8 C08"
  },
  "C09": {
   "level": "proof",
   "technique": "Coq proof of the property in full (tokens of a concatenation, reference merge, Unmarshal(a++b) = sequential Unmarshal via T_dec) + history correspondence",
-  "text": "Proved in Coq: C09_unmarshal_concat - for every schema with tdec_applies and all byte strings a, b: if Unmarshal a into t0 gives t1 without error and Unmarshal b into t1 gives t2 without error, then Unmarshal (a++b) into t0 gives exactly t2 (repeated fields appended, sub-messages merged, maps overwritten per key, last oneof member wins, nothing reset). Built from tokens_app (incl. prefix and fuel stability of the group skipper), ref_decode_app, monotonicity in the nesting budget, and T_dec. Per run: histories of 1-4 calls, implementation sequential = one-shot = model = reference decoder = protobuf-go on the concatenation. The theorems are about the Gallina model: that the model is the code is checked on every run by evaluating the extracted model and the implementation built from the working tree on the same generated inputs (checked-in types and freshly generated ones), that the emitted programs are the generator model's by T-pico, and that the reference specification means what protobuf means by comparing it with protobuf-go.",
+  "text": "Proved in Coq: C09_unmarshal_concat - for every message type with tdec_applies_at and all byte strings a, b: if Unmarshal a into t0 gives t1 without error and Unmarshal b into t1 gives t2 without error, then Unmarshal (a++b) into t0 gives exactly t2 (repeated fields appended, sub-messages merged, maps overwritten per key, last oneof member wins, nothing reset). Built from tokens_app (incl. prefix and fuel stability of the group skipper), ref_decode_app, monotonicity in the nesting budget, and T_dec. Per run: histories of 1-4 calls, implementation sequential = one-shot = model = reference decoder = protobuf-go on the concatenation. The theorems are about the Gallina model: that the model is the code is checked on every run by evaluating the extracted model and the implementation built from the working tree on the same generated inputs (checked-in types and freshly generated ones), that the emitted programs are the generator model's by T-pico, and that the reference specification means what protobuf means by comparing it with protobuf-go.",
   "note": "Trusted: Coq 8.16.1 kernel (vm_compute, no native_compute, no axioms: Print Assumptions recorded in evidence), extraction with ExtrOcamlBasic, the OCaml driver, the Go harness and generators, protobuf-go v1.31.0 as oracle. The tie between model and Go code is differential testing on the projection named in the level text, not proof.",
   "ref": "8 C09"
  },
  "C10": {
   "level": "proof",
   "technique": "Coq proof T_dec + unknown-token lemma (unknown tokens leave known fields untouched, are appended re-tagged in order only by capturing messages) + unknown-injection correspondence",
-  "text": "Proved in Coq: Theorem T_dec (Schema/TDec.v): for every schema with tdec_applies (valid distinct numbers, no custom type without modelled semantics; evaluated per schema on every run) and EVERY byte string, Unmarshal of the generated program returns exactly what the reference decoder (tokenize, then merge token by token) computes and returns an error exactly when the reference decoder rejects the input. In the reference decoder a token whose number no field has leaves every known field unchanged and is appended - canonical tag, then the value bytes exactly as in the input - to XXX_unrecognized by capturing messages only (C10_unknown_token); UnrecognizedFields' loop is proved to realise exactly that for consecutive unknown fields (re-tagging = canonical tag, skipper = one value of the grammar incl. groups). Per run: unknown fields of every wire type injected anywhere (incl. nested/sibling groups), captured bytes compared, forwarding through a narrower schema. The theorems are about the Gallina model: that the model is the code is checked on every run by evaluating the extracted model and the implementation built from the working tree on the same generated inputs (checked-in types and freshly generated ones), that the emitted programs are the generator model's by T-pico, and that the reference specification means what protobuf means by comparing it with protobuf-go.",
+  "text": "Proved in Coq: Theorem T_dec (Schema/TDec.v): for every message type with tdec_applies_at (valid distinct numbers and no custom type without modelled semantics among the message types reachable from it; evaluated per type on every run) and EVERY byte string, Unmarshal of the generated program returns exactly what the reference decoder (tokenize, then merge token by token) computes and returns an error exactly when the reference decoder rejects the input. In the reference decoder a token whose number no field has leaves every known field unchanged and is appended - canonical tag, then the value bytes exactly as in the input - to XXX_unrecognized by capturing messages only (C10_unknown_token); UnrecognizedFields' loop is proved to realise exactly that for consecutive unknown fields (re-tagging = canonical tag, skipper = one value of the grammar incl. groups). Per run: unknown fields of every wire type injected anywhere (incl. nested/sibling groups), captured bytes compared, forwarding through a narrower schema. The theorems are about the Gallina model: that the model is the code is checked on every run by evaluating the extracted model and the implementation built from the working tree on the same generated inputs (checked-in types and freshly generated ones), that the emitted programs are the generator model's by T-pico, and that the reference specification means what protobuf means by comparing it with protobuf-go.",
   "note": "Trusted: Coq 8.16.1 kernel (vm_compute, no native_compute, no axioms: Print Assumptions recorded in evidence), extraction with ExtrOcamlBasic, the OCaml driver, the Go harness and generators, protobuf-go v1.31.0 as oracle. The tie between model and Go code is differential testing on the projection named in the level text, not proof.",
   "ref": "8 C10"
  },
  "C11": {
   "level": "proof",
   "technique": "Coq proof generic in key/value kind: entry encoding, map round trip (C03's theorem), decoding of arbitrary entry sequences (T_dec) + correspondence on map messages (all 180 codecs via a generated schema)",
-  "text": "Proved in Coq for all 12x15 kinds: an entry is tag+minimal length+(key unless default)+(value unless default) (C11_entry, T_enc); C11_map_round_trip - any map with pairwise distinct keys round-trips exactly, omitted zero keys/values come back as zero, entries are independent (part of C03_marshal_unmarshal); decoding of ARBITRARY entry sequences (any order, missing key or value, duplicate keys overwrite, unknown fields inside entries) is the reference's (T_dec). Per run: all 180 instantiations through the generated `allmaps` schema (real plugin output) plus the checked-in ones, incl. entries of boundary length 127/128/129 and 16383/16384/16385 bytes, compared with the model and protobuf-go. The theorems are about the Gallina model: that the model is the code is checked on every run by evaluating the extracted model and the implementation built from the working tree on the same generated inputs (checked-in types and freshly generated ones), that the emitted programs are the generator model's by T-pico, and that the reference specification means what protobuf means by comparing it with protobuf-go. The premises of the theorems (msg_ok, rt_ok, rt_applies) are evaluated on every generated value and schema and counted in the evidence.",
+  "text": "Proved in Coq for all 12x15 kinds: an entry is tag+minimal length+(key unless default)+(value unless default) (C11_entry, T_enc); C11_map_round_trip - any map with pairwise distinct keys round-trips exactly, omitted zero keys/values come back as zero, entries are independent (part of C03_marshal_unmarshal); decoding of ARBITRARY entry sequences (any order, missing key or value, duplicate keys overwrite, unknown fields inside entries) is the reference's (T_dec). Per run: all 180 instantiations through the generated `allmaps` schema (real plugin output) plus the checked-in ones, incl. entries of boundary length 127/128/129 and 16383/16384/16385 bytes, compared with the model and protobuf-go. The theorems are about the Gallina model: that the model is the code is checked on every run by evaluating the extracted model and the implementation built from the working tree on the same generated inputs (checked-in types and freshly generated ones), that the emitted programs are the generator model's by T-pico, and that the reference specification means what protobuf means by comparing it with protobuf-go. The premises of the theorems (msg_ok, rt_ok, rt_applies_at, tdec_applies_at) are evaluated on every generated value and schema and counted in the evidence.",
   "note": "Trusted: Coq 8.16.1 kernel (vm_compute, no native_compute, no axioms: Print Assumptions recorded in evidence), extraction with ExtrOcamlBasic, the OCaml driver, the Go harness and generators, protobuf-go v1.31.0 as oracle. The tie between model and Go code is differential testing on the projection named in the level text, not proof.",
   "ref": "8 C11"
  },
